@@ -26,7 +26,8 @@ from mc.runner import Out
 ID = "C17"
 RULE = (
     "BFS to depth d (2 quick; thorough: 3 from 1-D axes of length <= 3, 2 otherwise) from every initial axis (first x step x length x step-attribute/estimated x array layout, "
-    "plus the frequency axis of a real compute_spectrogram result with a fractional-sample window, attributes as the library wrote them); "
+    "plus the frequency axis of a real compute_spectrogram result with a fractional-sample window, attributes as the library wrote them; plus integer-typed data "
+    "with a fractional fill value; plus an 8200-sample axis with a fixed depth-1 menu of crops / extensions / width changes at its ends and in its middle); "
     "transitions: crop_dim with both bounds on existing coordinates or midway between neighbours (all pairs, all four closedness settings), "
     "extend_dim with bounds 0..2 steps beyond each end on lattice points or half a step further (closedness per the soundness rule), "
     "adjust_dim_width / crop_dim_width / extend_dim_width for every width 0..len+3 x {start, center, end}. One evaluation per transition; "
@@ -66,6 +67,12 @@ def inits(tier):
         for attr in ([True] if tier == "quick" else [True, False]):
             out.append({"first": "0", "step": "1", "n": n, "attr": attr, "layout": "1d", "dtype": "int"})
     out.append({"first": "0", "step": "spec", "n": 3, "attr": True, "layout": "1d", "source": "spectrogram"})
+    # integer-typed DATA (counts): the fill value of an extension (x.5 here) must arrive unchanged
+    out.append({"first": "0", "step": "1", "n": 3, "attr": True, "layout": "1d", "data": "int"})
+    out.append({"first": "10/3", "step": "0.01", "n": 3, "attr": True, "layout": "2d_last", "data": "int"})
+    # a long axis with a fixed menu of transitions (depth 1)
+    out.append({"first": "0", "step": "quarter", "n": LONG_N, "attr": True, "layout": "1d", "long": True})
+    out.append({"first": "36000", "step": "quarter", "n": LONG_N, "attr": False, "layout": "1d", "long": True})
     for f, s, n, attr, lay in itertools.product(firsts, steps, lens, [True, False], layouts):
         if not attr and n < 2:
             continue
@@ -112,6 +119,8 @@ def make_initial(init):
         var = spectrogram_axis()
         assert list(var.data) == list(coords), (list(var.data), list(coords))
     base = np.arange(n) + 1.0
+    if init.get("data") == "int":
+        base = np.arange(n, dtype=np.int64) + 1
     lay = init["layout"]
     if lay == "1d":
         arr = xr.DataArray(base.copy(), dims=["x"], coords={"x": var})
@@ -147,11 +156,39 @@ def is_dyadic(init):
 
 
 # ---------------------------------------------------------------- operations enabled in a state
+LONG_N = 8200  # longer than any plausible 'small axis' threshold (4096, 8192) at which an implementation might switch algorithm
+
+
+def long_ops(st):
+    """A fixed menu of transitions for the long axis (the full menu grows with the square of the length)."""
+    lo, hi, n = st.lo, st.hi, st.hi - st.lo + 1
+    out = []
+    pts = [F(lo), F(lo + 100), F(lo + 100) + F(1, 2), F(lo + 200), F(hi) - F(1, 2), F(hi)]
+    for a, b in itertools.combinations_with_replacement(pts, 2):
+        for lc, rc in itertools.product([True, False], repeat=2):
+            out.append({"op": "crop", "a": str(a), "b": str(b), "lc": lc, "rc": rc})
+    for a, b in itertools.product([F(lo), F(lo) - F(3, 2), F(lo) - 2], [F(hi), F(hi) + F(1, 2), F(hi) + 2]):
+        for lc, rc in itertools.product([True, False], repeat=2):
+            if (not lc and a == lo) or (not rc and b == hi):
+                continue  # the requested interval must still contain the axis
+            out.append({"op": "extend", "a": str(a), "b": str(b), "lc": lc, "rc": rc})
+    for w in (1, n - 1, n, n + 1, n + 3):
+        for pos in ("start", "center", "end"):
+            out.append({"op": "adjust_width", "w": w, "pos": pos})
+            if w < n:
+                out.append({"op": "crop_width", "w": w, "pos": pos})
+            if w > n:
+                out.append({"op": "extend_width", "w": w, "pos": pos})
+    return out
+
+
 def ops(st):
     n = st.hi - st.lo + 1
     out = []
     if n <= 0:
         return out
+    if st.init.get("long"):
+        return long_ops(st) if st.depth == 0 else []
     # crop_dim: positions in index space, j or j + 1/2
     pts = [F(k) for k in range(st.lo, st.hi + 1)] + [F(k) + F(1, 2) for k in range(st.lo, st.hi)]
     pts.sort()
@@ -243,7 +280,7 @@ def step_fn(st, op, out):
     """Apply op to st; record oracles on out; return the next state or None."""
     n = st.hi - st.lo + 1
     arr = st.arr
-    fill = FILLS[min(st.depth, len(FILLS) - 1)]
+    fill = FILLS[min(st.depth, len(FILLS) - 1)] - (0.5 if st.init.get("data") == "int" else 0.0)
     cls = {"fn": op["op"]}
     kind = op["op"]
     exp_idx = None  # list of expected lattice indices, or None for a width op (checked structurally)
